@@ -44,6 +44,9 @@ def configs(tier):
         for centre in ('peak', 'trough'):
             out.append({'fn': 'split', 'rows': rows, 'centre': centre})
             out.append({'fn': 'drop', 'rows': rows, 'centre': centre})
+    # ... also for a table that does not carry the default 0..n-1 row labels (a windowed / filtered table)
+    for fn in ('split', 'drop'):
+        out.append({'fn': fn, 'rows': 2, 'centre': 'peak', 'index': 'shifted'})
     for k in range(1, (3 if q else 4) + 1):
         out.append({'fn': 'flatten1', 'k': k})
     for a, b in ([(1, 1), (1, 2), (2, 1), (2, 2)] + ([] if q else [(2, 3), (3, 2)])):
@@ -178,6 +181,10 @@ def run(ctx, cfg):
         rows, centre = cfg['rows'], cfg['centre']
         data, scols = sample_table(ctx, rows, centre)
         df = pd.DataFrame({c: list(v) for c, v in data.items()})
+        if cfg.get('index') == 'shifted':
+            big = pd.DataFrame({c: [0, 0] + list(v) for c, v in data.items()})
+            df = big.iloc[range(2, rows + 2)]
+        labels = list(df.index)
         try:
             if fn == 'split':
                 feat, samp = du.split_samples_df(df)
@@ -188,7 +195,9 @@ def run(ctx, cfg):
             return
         want_feat = [c for c in data if not c.startswith('sample_')]
         want_samp = [c for c in data if c.startswith('sample_')]
-        obl = [(list(feat.columns) == want_feat, 'feature table holds exactly the non-sample columns')]
+        obl = [(list(feat.columns) == want_feat, 'feature table holds exactly the non-sample columns'),
+               (list(feat.index) == labels, 'feature table keeps the row labels'),
+               (samp is None or list(samp.index) == labels, 'sample table keeps the row labels')]
         if samp is not None:
             obl.append((list(samp.columns) == want_samp, 'sample table holds exactly the sample_* columns'))
         if not ctx.prove_all(obl):
